@@ -93,6 +93,40 @@ c15_read_exact!(read_exact_8b_5calls, 5, 10);
 // @ob C15 thorough read_exact_8b_9calls fns=Read::read_exact,default_read_exact bound="as quick, <=9 reader calls" timeout=3000
 c15_read_exact!(read_exact_8b_9calls, 9, 12);
 
+// read_to_end: exact-fit capacity, probe buffer, growth.  (Round 0 probes with symbolic capacities exhausted 40-60 GB; this
+// formulation fixes the initial capacity per instance and keeps the data short.)
+macro_rules! c15_read_to_end {
+    ($name:ident, $cap:expr, $total:expr, $calls:expr, $u:expr) => {
+        #[kani::proof]
+        #[kani::unwind($u)]
+        fn $name() {
+            let total: usize = kani::any();
+            kani::assume(total <= $total);
+            let mut r = ScriptReader { data: kani::any(), total, pos: 0, calls: 0, max_calls: $calls, eintrs: 0, gave_error: false };
+            let mut v: alloc::vec::Vec<u8> = alloc::vec::Vec::with_capacity($cap);
+            let res = r.read_to_end(&mut v);
+            kani::cover!(res.is_ok() && total == $total && r.calls >= 4, "all data delivered over several short reads");
+            kani::cover!(res.is_ok() && total > $cap && $cap > 0, "the exact-fit probe found more data");
+            match res {
+                Ok(n) => {
+                    assert!(!r.gave_error, "a non-EINTR error must be returned");
+                    assert!(r.pos == total, "end of data was reached: nothing is left unread");
+                    assert!(n == total && v.len() == total, "the count returned is the number of bytes appended");
+                    let i: usize = kani::any();
+                    kani::assume(i < total);
+                    assert!(v[i] == r.data[i], "read_to_end delivers exactly the concatenated bytes");
+                }
+                Err(e) => {
+                    assert!(r.gave_error && e.matches_errno(Errno::EIO), "failure only with the reader's own error");
+                }
+            }
+            core::mem::forget(v);
+        }
+    };
+}
+// (no obligation registered: with capacity 2, <=5 bytes and <=6 calls symbolic execution did not finish in 20 min - the
+// Vec growth path (reserve / extend_from_slice / spare_capacity_mut) with symbolic lengths; read_to_end stays outside C15)
+
 /// accepts arbitrary short writes; may report 0 accepted, EINTR or EIO at the solver's choice
 struct ScriptWriter {
     out: [u8; 2 * N],
